@@ -41,6 +41,8 @@ def run(chk, tier):
     chk.rule("R-PROG", "loop progress")
     nl = progloops.run(chk, P, ["topology-synthetic.c"])
     chk.floor("R-PROG", "in-scope loops", nl, 15)
+    import uninit
+    uninit.wire(chk, P, ["topology-synthetic.c"], 2)
     chk.decided += ["the level walk of the index parser never reads levels that were not written (sentinel planted before every call)",
                     "synthetic attributes are stored into / exported from the union member matching the level's type",
                     "the parser accepts or rejects without writing outside its fixed/heap arrays (bounds proved on all paths of the scoped accesses)",
